@@ -208,18 +208,30 @@ def start_time_rule(F, R):
         return
     seen = set()
     bad = []
-    for p in explore(b):
+    # the variant of `*self` is followed along each path (a helper spliced in may test it again: only the arm that was
+    # taken is feasible), and the clock's answer may have been given a name before it is matched on
+    variants = [v['name'] for v in (F.adt('start_time::StartTime') or {'variants': []})['variants']]
+    tracked = {'(*self)': ('start_time::StartTime', frozenset(variants), variants)} if variants else None
+    from ..facts import op_local
+    wl = set(t['dest']['l'] for _, t in b.calls() if (callee_path(t) or '').endswith('::when_to_start') and t.get('dest') and not t['dest']['p'])
+    for _ in range(4):          # copies of the answer (a helper's parameter)
+        for x, si, s in b.stmts():
+            if s['k'] == 'assign' and not s['lhs']['p'] and s['rv']['k'] == 'use' and op_local(s['rv']['op']) in wl \
+                    and 'pl' in s['rv']['op'] and not s['rv']['op']['pl']['p']:
+                wl.add(s['lhs']['l'])
+    asked = set('_%d' % l for l in wl) | set(b.local_name(l) for l in wl if b.local_name(l))
+    for p in explore(b, tracked):
         if p.end != 'return':
             continue
         arm = None
         zero = None
         when = None
         for bb, desc, lab in p.decisions:
-            if desc.startswith('discr(') and lab in ('Immediate', 'Delayed', 'ClockTime'):
+            if desc.startswith('discr(') and lab in ('Immediate', 'Delayed', 'ClockTime') and arm is None:
                 arm = lab
             if 'Duration::is_zero(' in desc:
                 zero = bool_label(lab)
-            if 'when_to_start(' in desc and lab in ('Now', 'Later', 'Never'):
+            if ('when_to_start(' in desc or any(desc == 'discr(%s)' % nm for nm in asked)) and lab in ('Now', 'Later', 'Never'):
                 when = lab
         sets = [describe_rv_(b, s) for x in p.blocks for s in b.blocks[x]['stmts']
                 if s['k'] == 'assign' and s['lhs']['p'] and pretty_place(b, s['lhs']) in ('(*self)',)]
